@@ -902,6 +902,9 @@ def concatenate_ds(datasets, axis=0, align=False, **kwargs):
     b: ('x0', 'x1')
     """
     # find the list of variables common to all datasets
+    if not isinstance(axis, str):
+        axis = datasets[0].axes[axis].name # dataset position -> name: variables may list their dimensions in another order
+
     variables = None
     for ds in datasets:
 
